@@ -1,4 +1,4 @@
-CONSTANTS Threads <- T1  DynVars <- Dyn  NonDyn = "n"  Vals <- MVals  Bad <- MBad  Maps <- AllMaps  Orders <- AllOrders
+CONSTANTS Threads <- T1  DynVars <- Dyn  NonDyn = "n"  Vals <- MVals  Bad <- MBad  Maps <- AllMaps  Orders <- RotOrders
           SpawnKinds <- AllKinds  MaxDepth = 3  NoRollback = FALSE
 SPECIFICATION Spec
 INVARIANT RestoredOnExit
